@@ -170,8 +170,45 @@ def _gen_clock(rng, n: int) -> list[float]:
     return out
 
 
+SWEEP_LETTERS = [0, 8, 16, 64]  # 0, 1/8, 1/4, 1
+SWEEP_MAXLEN = 6
+SWEEP_CONFIGS = [
+    {"kind": kind, "patience": pat, "min_delta": md, "verbose": 0}
+    for kind in ("TrainLoss", "ValLoss") for pat in (0, 1, 2, 3) for md in (0, 8)
+]
+SWEEP_REPRS = ["float", "np32", "jax0d"]
+
+
+def sweep_size() -> int:
+    n_hist = sum(len(SWEEP_LETTERS) ** n for n in range(1, SWEEP_MAXLEN + 1))
+    return n_hist * len(SWEEP_CONFIGS) * len(SWEEP_REPRS)
+
+
+def sweep_plan(index: int) -> dict:
+    """index -> (representation, configuration, history): a complete enumeration of all loss histories of length
+    1..6 over a 4-letter ordered alphabet x 16 patience configurations x 3 scalar representations."""
+    n_hist = sum(len(SWEEP_LETTERS) ** n for n in range(1, SWEEP_MAXLEN + 1))
+    rep = SWEEP_REPRS[index % len(SWEEP_REPRS)]
+    index //= len(SWEEP_REPRS)
+    cfg = SWEEP_CONFIGS[index % len(SWEEP_CONFIGS)]
+    h = (index // len(SWEEP_CONFIGS)) % n_hist
+    n = 1
+    while h >= len(SWEEP_LETTERS) ** n:
+        h -= len(SWEEP_LETTERS) ** n
+        n += 1
+    hist = []
+    for _ in range(n):
+        hist.append(SWEEP_LETTERS[h % len(SWEEP_LETTERS)])
+        h //= len(SWEEP_LETTERS)
+    other = [SWEEP_LETTERS[(x * 7 + 3) % 4] for x in range(n)]  # the un-monitored loss: unrelated values
+    train, val = (hist, other) if cfg["kind"] == "TrainLoss" else (other, hist)
+    return {"mode": "direct", "cond": dict(cfg), "train": train, "val": val, "reprs": [rep] * n, "etimes": [1.0] * (n + 1)}
+
+
 def gen_plan(rng, profile: dict, seed: int) -> dict:
     mode = profile["mode"]
+    if mode == "sweep":
+        return sweep_plan(int(profile["_index"]))
     cond = _gen_cond(rng)
     special = rng.random() < 0.25
     if mode == "direct":
